@@ -150,20 +150,115 @@ Proof.
   rewrite E in D. apply app_inv_head in D. subst; auto.
 Qed.
 
+Lemma upto_split t : t = upto_last_nl t ++ after_last_nl t.
+Proof.
+  destruct (upto_decomp t) as (q & E & _). unfold after_last_nl.
+  remember (upto_last_nl t) as u. clear Hequ. subst t.
+  rewrite skipn_app, skipn_all, Nat.sub_diag. reflexivity.
+Qed.
+
+Lemma after_no_nl t : has_nl (after_last_nl t) = false.
+Proof.
+  destruct (upto_decomp t) as (q & E & Hq & _).
+  pose proof (upto_split t) as S. rewrite E in S at 1. apply app_inv_head in S. congruence.
+Qed.
+
+Lemma upto_nonempty t : has_nl t = true -> upto_last_nl t <> [].
+Proof.
+  intros H E. pose proof (upto_split t) as S. rewrite E in S; simpl in S.
+  rewrite S, after_no_nl in H. discriminate.
+Qed.
+
+Lemma upto_ends t : has_nl t = true -> ends_nl (upto_last_nl t) = true.
+Proof.
+  intro H. destruct (upto_decomp t) as (_ & _ & _ & [E|E]); auto.
+  apply upto_nonempty in H. contradiction.
+Qed.
+
+Lemma upto_length t : (length (upto_last_nl t) <= length t)%nat.
+Proof. rewrite (upto_split t) at 2. rewrite app_length. lia. Qed.
+
+Lemma str_contains_nl s : str_contains [NL] s = has_nl s.
+Proof.
+  induction s as [|c s IH]; auto.
+  simpl. rewrite IH. destruct c; reflexivity.
+Qed.
+
+(** rindex of NL, by the scan of Prim.v *)
+Lemma rindex_go_nl t : forall i best,
+  rindex_go t [NL] i best =
+  if has_nl t then i + Z.of_nat (length (upto_last_nl t)) - 1 else best.
+Proof.
+  induction t as [|c r IH]; intros i best; simpl; auto.
+  rewrite IH. destruct (has_nl r) eqn:Hr.
+  - pose proof (upto_nonempty r Hr) as N.
+    destruct (upto_last_nl r) as [|d u] eqn:U; [contradiction|].
+    destruct c; cbv iota; cbn [length]; lia.
+  - rewrite (upto_no_nl r Hr). destruct c; simpl; auto. lia.
+Qed.
+
+Lemma rindex_nl t : has_nl t = true ->
+  str_rindex t [NL] + 1 = Z.of_nat (length (upto_last_nl t)).
+Proof. intro H. unfold str_rindex. rewrite rindex_go_nl, H. lia. Qed.
+
+Lemma slice_from t n : (n <= length t)%nat -> str_slice t (Some (Z.of_nat n)) None = skipn n t.
+Proof.
+  intro H. unfold str_slice, py_index.
+  replace (Z.of_nat n <? 0) with false by (symmetry; apply Z.ltb_ge; lia).
+  rewrite Z.min_l by lia. rewrite Nat2Z.id.
+  apply firstn_all2. rewrite skipn_length. lia.
+Qed.
+
+Lemma slice_to t n : (n <= length t)%nat -> str_slice t None (Some (Z.of_nat n)) = firstn n t.
+Proof.
+  intro H. unfold str_slice, py_index.
+  replace (Z.of_nat n <? 0) with false by (symmetry; apply Z.ltb_ge; lia).
+  rewrite Z.min_l by lia. rewrite Nat2Z.id, Nat.sub_0_r. reflexivity.
+Qed.
+
+Lemma firstn_upto t : firstn (length (upto_last_nl t)) t = upto_last_nl t.
+Proof.
+  rewrite (upto_split t) at 2. rewrite firstn_app, Nat.sub_diag, firstn_all. simpl. apply app_nil_r.
+Qed.
+
+Lemma dd_remove_idem b k : dd_remove (dd_remove b k) k = dd_remove b k.
+Proof.
+  induction b as [|[a v] r IH]; simpl; auto.
+  destruct (key_eqb a k) eqn:E; simpl; rewrite ?E, IH; auto.
+Qed.
+
+(** the buffer after a flush: `rest` is kept under k only when non-empty *)
+Definition keep_rest (b : buf) (k : pykey) (r : text) : buf :=
+  if truthy_text r then dd_set (dd_remove b k) k r else dd_remove b k.
+
+Lemma keep_rest_get b k r k' :
+  dd_get (keep_rest b k r) k' = if key_eqb k k' then r else dd_get b k'.
+Proof.
+  unfold keep_rest. destruct r as [|c r]; simpl truthy_text; cbv iota.
+  - rewrite dd_get_remove. reflexivity.
+  - rewrite dd_get_set, dd_get_remove. destruct (key_eqb k k'); reflexivity.
+Qed.
+
 (** ** what the generated closures do (the only lemmas that look inside
     Gen/PeekFuns.v) *)
 
 Lemma rlbk_spec {W} (cb : pykey -> text -> W -> W) k s b w :
   read_lines_by_key cb k s (b, w) =
-  if ends_nl s then (dd_remove b k, cb k (dd_get b k ++ s) w)
+  if has_nl s
+  then (keep_rest b k (after_last_nl (dd_get b k ++ s)), cb k (upto_last_nl (dd_get b k ++ s)) w)
   else (dd_set b k (dd_get b k ++ s), w).
 Proof.
-  unfold read_lines_by_key, ends_nl, dd_pop, str_add.
-  destruct (str_endswith s [NL]); auto.
+  unfold read_lines_by_key, dd_pop, str_add. cbv beta iota zeta.
+  rewrite str_contains_nl. destruct (has_nl s) eqn:Hs; cbv beta iota zeta delta [negb]; auto.
   rewrite dd_get_set, key_eqb_refl.
-  f_equal. unfold dd_set. simpl. rewrite key_eqb_refl.
-  clear. induction b as [|[a v] r IH]; simpl; auto.
-  destruct (key_eqb a k) eqn:E; simpl; rewrite ?E, IH; auto.
+  set (t := dd_get b k ++ s).
+  assert (Ht : has_nl t = true) by (unfold t; rewrite has_nl_app, Hs; apply orb_true_r).
+  assert (R : dd_remove (dd_set b k t) k = dd_remove b k).
+  { unfold dd_set. simpl. rewrite key_eqb_refl. apply dd_remove_idem. }
+  rewrite R, (rindex_nl t Ht).
+  rewrite slice_from, slice_to by apply upto_length.
+  rewrite firstn_upto. fold (after_last_nl t). unfold keep_rest.
+  destruct (truthy_text (after_last_nl t)); reflexivity.
 Qed.
 
 Lemma assign_key_spec {W} (a : pykey) (cb : pykey -> text -> W -> W) s w :
@@ -192,10 +287,11 @@ Qed.
 
 (** one write, as a function of the state *)
 Definition flushing (a : pykey) (s : text) (st : buf * world) : buf * world :=
-  if ends_nl s
-  then (dd_remove (fst st) a,
-        mkWorld (w_events (snd st) ++ [(a, dd_get (fst st) a ++ s)]) (w_real (snd st) ++ [s]))
-  else (dd_set (fst st) a (dd_get (fst st) a ++ s),
+  let t := dd_get (fst st) a ++ s in
+  if has_nl s
+  then (keep_rest (fst st) a (after_last_nl t),
+        mkWorld (w_events (snd st) ++ [(a, upto_last_nl t)]) (w_real (snd st) ++ [s]))
+  else (dd_set (fst st) a t,
         mkWorld (w_events (snd st)) (w_real (snd st) ++ [s])).
 
 Definition dropping (s : text) (st : buf * world) : buf * world :=
@@ -210,7 +306,7 @@ Proof.
     as [(F & E)|(N & E)]; rewrite E.
   - left; split; auto.
   - right; split; auto. rewrite rlbk_spec. unfold flushing, org_write, on_write_stdout; simpl.
-    destruct (ends_nl s); reflexivity.
+    destruct (has_nl s); reflexivity.
 Qed.
 
 Lemma step_traced st a s : truthy_key a = true -> step st (Write a s) = flushing a s st.
@@ -250,7 +346,7 @@ Proof.
   rewrite run_snoc, map_app.
   destruct (step_spec (run ws) a s) as [(_ & E)|(_ & E)]; rewrite E.
   - unfold dropping; simpl. rewrite IH; reflexivity.
-  - unfold flushing; destruct (ends_nl s); simpl; rewrite IH; reflexivity.
+  - unfold flushing; destruct (has_nl s); simpl; rewrite IH; reflexivity.
 Qed.
 
 (** every event carries a key other than None and a text ending in NL *)
@@ -262,9 +358,9 @@ Proof.
   - rewrite run_snoc.
     destruct (step_spec (run ws) a s) as [(_ & E)|(N & E)]; rewrite E.
     + exact IH.
-    + unfold flushing; destruct (ends_nl s) eqn:En; simpl; auto.
+    + unfold flushing; destruct (has_nl s) eqn:En; simpl; auto.
       apply Forall_app; split; auto. constructor; auto. simpl; split; auto.
-      apply ends_nl_app; auto.
+      apply upto_ends. rewrite has_nl_app, En. apply orb_true_r.
 Qed.
 
 (** the model's buffer and events of a traced key are the history functions *)
@@ -283,12 +379,12 @@ Proof.
     unfold dropping; simpl; auto.
   - unfold flushing. destruct (key_eqb a k) eqn:Ek.
     + apply key_eqb_eq in Ek; subst a.
-      destruct (ends_nl s); cbn [fst snd w_events].
-      * rewrite dd_get_remove, key_eqb_refl, pieces_of_app. cbn [pieces_of].
+      destruct (has_nl s); cbn [fst snd w_events].
+      * rewrite keep_rest_get, key_eqb_refl, pieces_of_app. cbn [pieces_of].
         rewrite key_eqb_refl, IHb, IHe. auto.
       * rewrite dd_get_set, key_eqb_refl, IHb, IHe. auto.
-    + destruct (ends_nl s); cbn [fst snd w_events].
-      * rewrite dd_get_remove, Ek, pieces_of_app. cbn [pieces_of]. rewrite Ek, app_nil_r. auto.
+    + destruct (has_nl s); cbn [fst snd w_events].
+      * rewrite keep_rest_get, Ek, pieces_of_app. cbn [pieces_of]. rewrite Ek, app_nil_r. auto.
       * rewrite dd_get_set, Ek. auto.
 Qed.
 
@@ -301,8 +397,9 @@ Proof.
   rewrite hist_snoc, writes_of_app; simpl. rewrite app_nil_r.
   destruct (key_eqb a k); [|rewrite app_nil_r; exact IH].
   rewrite <- IH.
-  destruct (ends_nl s); simpl.
-  - rewrite concat_app; simpl. rewrite !app_nil_r, app_assoc. reflexivity.
+  destruct (has_nl s); simpl.
+  - rewrite concat_app; simpl. rewrite app_nil_r, <- !app_assoc. f_equal.
+    symmetry. apply upto_split.
   - rewrite app_assoc. reflexivity.
 Qed.
 
@@ -312,8 +409,9 @@ Proof.
   induction ws as [|[a s] ws IH] using rev_ind; [constructor|].
   rewrite hist_snoc; simpl.
   destruct (key_eqb a k); auto.
-  destruct (ends_nl s) eqn:E; simpl; auto.
-  apply Forall_app; split; auto. constructor; auto. apply ends_nl_app; auto.
+  destruct (has_nl s) eqn:E; simpl; auto.
+  apply Forall_app; split; auto. constructor; auto.
+  apply upto_ends. rewrite has_nl_app, E. apply orb_true_r.
 Qed.
 
 Lemma concat_ends l :
@@ -333,24 +431,16 @@ Qed.
 Lemma hist_only k ws : hist k (only k ws) = hist k ws.
 Proof. apply hist_only_gen. Qed.
 
-Lemma unflushed_no_nl k ws : nl_only_at_end_for k ws -> has_nl (unflushed k ws) = false.
+Lemma unflushed_no_nl k ws : has_nl (unflushed k ws) = false.
 Proof.
   unfold unflushed.
   induction ws as [|[a s] ws IH] using rev_ind; auto.
-  intro H. rewrite hist_snoc; simpl.
-  assert (H' : nl_only_at_end_for k ws).
-  { intros s' I Hs; apply (H s'); auto; apply in_or_app; auto. }
-  specialize (IH H').
-  destruct (key_eqb a k) eqn:Ek; auto.
-  apply key_eqb_eq in Ek; subst a.
-  destruct (ends_nl s) eqn:E; simpl; auto.
-  rewrite has_nl_app, IH; simpl.
-  destruct (has_nl s) eqn:Hs; auto.
-  rewrite (H s) in E; auto. apply in_or_app; right; simpl; auto.
+  rewrite hist_snoc; simpl.
+  destruct (key_eqb a k); auto.
+  destruct (has_nl s) eqn:E; simpl.
+  - apply after_no_nl.
+  - rewrite has_nl_app, IH, E. reflexivity.
 Qed.
-
-Lemma nl_only_at_end_all ws k : nl_only_at_end ws -> nl_only_at_end_for k ws.
-Proof. intros H s I; apply (H k s I). Qed.
 
 (** ** the statements used by Props/C13.v *)
 
@@ -385,28 +475,16 @@ Proof.
   apply concat_ends, hist_pieces_end.
 Qed.
 
-Lemma model_upto_iff ws n :
+Lemma model_pending_no_nl ws n : has_nl (unflushed (Some n) ws) = false.
+Proof. apply unflushed_no_nl. Qed.
+
+Lemma model_upto ws n :
   n <> 0 ->
-  (reported_of (Some n) (events ws) = upto_last_nl (writes_of (Some n) ws)
-   <-> has_nl (unflushed (Some n) ws) = false).
+  reported_of (Some n) (events ws) = upto_last_nl (writes_of (Some n) ws).
 Proof.
-  intro Hn. rewrite <- (model_exactly_once ws n Hn).
-  pose proof (upto_iff _ (unflushed (Some n) ws) (model_reported_ends ws n Hn)) as I.
-  split; intro H.
-  - apply I; auto.
-  - symmetry; apply I; auto.
+  intro Hn. rewrite <- (model_exactly_once ws n Hn). symmetry.
+  apply upto_unique; [apply model_reported_ends; auto | apply unflushed_no_nl].
 Qed.
-
-Lemma model_upto_partial_per_trace ws n :
-  n <> 0 -> nl_only_at_end_for (Some n) ws ->
-  reported_of (Some n) (events ws) = upto_last_nl (writes_of (Some n) ws).
-Proof. intros Hn H. apply model_upto_iff; auto. apply unflushed_no_nl; auto. Qed.
-
-Lemma model_upto_partial ws :
-  nl_only_at_end ws ->
-  forall n, n <> 0 ->
-  reported_of (Some n) (events ws) = upto_last_nl (writes_of (Some n) ws).
-Proof. intros H n Hn. apply model_upto_partial_per_trace; auto. apply nl_only_at_end_all; auto. Qed.
 
 Lemma model_interleaving ws n :
   n <> 0 ->
